@@ -684,6 +684,14 @@ namespace bloch::update {
                       << std::endl;
             return false;
         }
+        if (!parseSemVer(currentVersion).valid || !parseSemVer(*latest).valid) {
+            // Without two comparable versions we cannot tell whether the release is newer;
+            // installing it anyway could downgrade or reinstall blindly.
+            std::cerr << "Cannot compare the installed version (" << currentVersion
+                      << ") with the latest release tag (" << *latest << "); not updating."
+                      << std::endl;
+            return false;
+        }
         if (hasLatest(currentVersion, *latest)) {
             std::cout << "You already have the latest Bloch release (" << *latest << ")."
                       << std::endl;
